@@ -28,3 +28,73 @@ Proof.
   clear -Hnn Hbt. induction Hnn as [|o l (Fo & Ho0 & _) _ IH]; [constructor|]. pose proof (Forall_inv Hbt) as (_ & _ & Hhi).
   constructor; [|apply IH; exact (Forall_inv_tail Hbt)]. split; [exact Fo|]. split; [exact Ho0|]. lra.
 Qed.
+
+(* ---- the bar paths: bars with finite prices free of -0.0, low <= close <= high ---- *)
+From TA Require Import Proofs.Ring Proofs.MinMaxProofs Proofs.FloatOrder Proofs.XFast Proofs.ResetLift Proofs.OnePrice.
+Open Scope R_scope.
+
+Definition inbar (b : Bar float) : Prop :=
+  inb (b_high b) /\ inb (b_low b) /\ finF (b_close b) /\ Rabs (FR (b_close b)) <= BIG / 4 /\ FR (b_low b) <= FR (b_close b) <= FR (b_high b).
+
+Theorem fast_bar_float_range : forall p s bars, fast_new O p = Ok s -> Forall inbar bars ->
+  Forall (fun o => finF o /\ 0 <= FR o <= 100) (fast_bar_outs O s bars).
+Proof.
+  intros p s bars H Hb. unfold fast_new in H.
+  destruct (min_new O p) as [mn0| |] eqn:Emn; cbn in H; try discriminate.
+  destruct (max_new O p) as [mx0| |] eqn:Emx; cbn in H; try discriminate. injection H as <-.
+  pose proof (min_new_inv O p mn0 Emn) as (Hp0 & Hpa & _ & _).
+  rewrite min_new_ok in Emn by assumption. injection Emn as <-.
+  rewrite max_new_ok in Emx by assumption. injection Emx as <-.
+  assert (Hp : (0 < p)%N) by lia.
+  set (highs := map b_high bars). set (lows := map b_low bars). set (closes := map b_close bars).
+  assert (Hhi : Forall okF highs) by (unfold highs; clear -Hb; induction Hb as [|b l ((A & _) & _) _ IH]; cbn [map]; constructor; assumption).
+  assert (Hlo : Forall okF lows) by (unfold lows; clear -Hb; induction Hb as [|b l (_ & (A & _) & _) _ IH]; cbn [map]; constructor; assumption).
+  destruct (min_least O okF float_order_min p 0 0 lows Hp Hpa Hp Hp Hlo) as [Lmin Cmin].
+  destruct (max_greatest O okF p 0 0 highs float_order_max Hp Hpa Hp Hp Hhi) as [Lmax Cmax].
+  rewrite fast_bar_wiring, min_outs_res, max_outs_res. fold highs lows closes.
+  set (mins := min_outs O _ lows) in *. set (maxs := max_outs O _ highs) in *.
+  assert (Ll : length lows = length bars) by (unfold lows; apply map_length).
+  assert (Lh : length highs = length bars) by (unfold highs; apply map_length).
+  assert (Lc : length closes = length bars) by (unfold closes; apply map_length).
+  apply (Forall_map3 _ _ closes mins maxs 0%float (inf O) (ninf O)); [rewrite Lmin, Ll, Lc; reflexivity|rewrite Lmax, Lh, Lc; reflexivity|].
+  intros k Hk. rewrite Lc in Hk. specialize (Cmin k ltac:(lia)). specialize (Cmax k ltac:(lia)).
+  set (wl := lastn (N.to_nat p) (firstn (S k) lows)) in *. set (wh := lastn (N.to_nat p) (firstn (S k) highs)) in *.
+  destruct Cmin as [Imn Lmn]. destruct Cmax as [Imx Lmx].
+  rewrite Forall_forall in Hb.
+  assert (Hin : forall (f : Bar float -> float) y, In y (lastn (N.to_nat p) (firstn (S k) (map f bars))) -> exists b, In b bars /\ y = f b).
+  { intros f y Hy. apply in_window_in in Hy. apply in_map_iff in Hy as (b & <- & Ib). exists b. split; [exact Ib|reflexivity]. }
+  destruct (Hin b_low _ Imn) as (b1 & Ib1 & E1). destruct (Hin b_high _ Imx) as (b2 & Ib2 & E2).
+  destruct (Hb b1 Ib1) as (_ & (_ & Fmn & Bmn) & _). destruct (Hb b2 Ib2) as ((_ & Fmx & Bmx) & _). rewrite <- E1 in Fmn, Bmn. rewrite <- E2 in Fmx, Bmx.
+  set (dflt := mkBar 0%float 0%float 0%float 0%float 0%float).
+  set (bk := nth k bars dflt).
+  assert (Ibk : In bk bars) by (apply nth_In; exact Hk).
+  destruct (Hb bk Ibk) as ((_ & Fh & Bh) & (_ & Fl & Bl) & Fc & Bc & Hlc & Hch).
+  assert (Eck : nth k closes 0%float = b_close bk) by (unfold closes, bk; change 0%float with (b_close dflt); apply map_nth).
+  assert (Elk : nth k lows 0%float = b_low bk) by (unfold lows, bk; change 0%float with (b_low dflt); apply map_nth).
+  assert (Ehk : nth k highs 0%float = b_high bk) by (unfold highs, bk; change 0%float with (b_high dflt); apply map_nth).
+  assert (Hlk : In (b_low bk) wl) by (rewrite <- Elk; apply nth_in_window; [lia|rewrite Ll; exact Hk]).
+  assert (Hhk : In (b_high bk) wh) by (rewrite <- Ehk; apply nth_in_window; [lia|rewrite Lh; exact Hk]).
+  rewrite Eck. unfold stoch_bar. rewrite float_eqb_sym. cbn [eqb c50 mul div sub c100 O].
+  apply stoch_range; try assumption. split.
+  - apply Rle_trans with (FR (b_low bk)); [|exact Hlc]. apply ltb_false_le; [exact Fl|exact Fmn|]. apply Lmn. exact Hlk.
+  - apply Rle_trans with (FR (b_high bk)); [exact Hch|]. apply ltb_false_le; [exact Fmx|exact Fh|]. apply Lmx. exact Hhk.
+Qed.
+
+Theorem slow_bar_float_range : forall p q s bars, slow_new O p q = Ok s -> (q < 35184372088832)%N -> Forall inbar bars ->
+  Forall (fun o => finF o /\ 0 <= FR o <= 100 + 1700 * (IZR (Z.of_N q) + 1) * u) (slow_bar_outs O s bars).
+Proof.
+  intros p q s bars H Hq Hb. unfold slow_new in H.
+  destruct (fast_new O p) as [f| |] eqn:Ef; cbn [bind] in H; try discriminate.
+  destruct (ema_new O q) as [e| |] eqn:Ee; cbn [bind] in H; try discriminate. injection H as <-.
+  rewrite slow_bar_wiring. pose proof (fast_bar_float_range p f bars Ef Hb) as HT1.
+  set (T := fast_bar_outs O f bars) in *.
+  assert (H200 : 2 * 100 <= bpow radix2 990) by (apply Rle_trans with (bpow radix2 8); [change (bpow radix2 8) with 256; lra|apply bpow_le; lia]).
+  destruct (ema_float_nonneg q e T 100 Ee Hq ltac:(lra) H200 HT1) as [_ Hnn].
+  assert (HTok : Forall (okin 100) T) by (eapply Forall_impl; [|exact HT1]; intros x (Fx & H0 & H1); split; [exact Fx|rewrite Rabs_pos_eq; assumption]).
+  assert (HTb : allb 0 100 T) by (eapply Forall_impl; [|exact HT1]; intros x (_ & Hbb); exact Hbb).
+  assert (Hl : bpow radix2 (-960) <= 100) by (apply Rle_trans with (bpow radix2 0); [apply bpow_le; lia|change (bpow radix2 0) with 1; lra]).
+  assert (Hu : 100 <= bpow radix2 990) by lra.
+  pose proof (ema_float_between q e T 100 0 100 Ee ltac:(lia) Hl Hu HTok HTb) as Hbt.
+  clear -Hnn Hbt. induction Hnn as [|o l (Fo & Ho0 & _) _ IH]; [constructor|]. pose proof (Forall_inv Hbt) as (_ & _ & Hhi).
+  constructor; [|apply IH; exact (Forall_inv_tail Hbt)]. split; [exact Fo|]. split; [exact Ho0|]. lra.
+Qed.
